@@ -721,6 +721,8 @@ class O5mEncoder {
         int64_t length_delta = 0;
         bool bad_reference = false;
         uint64_t reference = 0;     // what is written instead of the first string reference or inline string of the object
+        bool bad_box = false;       // the file's bounding box dataset gets hostile corner values
+        uint64_t box_pick = 0;
         bool fired = false;
         std::string what;
     };
@@ -744,7 +746,15 @@ class O5mEncoder {
             dataset(o, 0xdc, b);
             ch.note("o5m-timestamp-dataset");
         }
-        if (hdr.has_box) {
+        if (hostile && hostile->bad_box) {
+            // (hostile mode: a bounding box whose corners are the "undefined" marker, reversed, out of range, beyond 32 bits)
+            static const int64_t vals[] = {2147483647LL, -2147483648LL, 0, 5, -5, 1800000001LL, -1800000001LL, 900000001LL, 4294967296LL + 7, 9223372036854775807LL, -9223372036854775807LL - 1};
+            std::string b;
+            for (int i = 0; i < 4; ++i) svar(b, vals[(hostile->box_pick >> (4 * i)) % (sizeof(vals) / sizeof(vals[0]))]);
+            dataset(o, 0xdb, b);
+            hostile->fired = true;
+            hostile->what += " hostile bounding box;";
+        } else if (hdr.has_box) {
             std::string b;
             svar(b, hdr.bl.x);
             svar(b, hdr.bl.y);
